@@ -6,11 +6,15 @@ Sub-checks
               A var + b  ==  Born distribution of every schedule, computed (a) by the model's circuit semantics (exact),
               (b) by operator-level numpy (tr(E rho)), (c) by quara itself composing the circuit (Experiment.calc_prob_dist,
               generate_prob_dists_sequence) with the candidate inserted
-  prob_dists  StandardQTomography.calc_prob_dist(s) and calc_fisher_matrix vs the model AS CODED and vs the property
-              (mixed outcome counts: DESIGN section 4 #10)
-  rank        is_fullrank_matA vs exact elimination over Qc on the rational pre-image of A; full column rank <=> testers
-              informationally complete (decided independently on the tester sets)
-  witness     the witnesses of the *_refuted theorems replayed on the real code
+  prob_dists  StandardQTomography.calc_prob_dists / calc_prob_dist / calc_fisher_matrix vs the model (the code AFTER the fixes
+              calc-prob-dists-mixed-outcome-counts and calc-fisher-matrix-mixed-outcome-counts: split / slice at the schedules' own
+              outcome counts) and vs the property (row j = Born distribution of schedule j); on a tree without the fixes the
+              mixed-count cases are reported as mixed-outcome-counts-reshape / mixed-outcome-counts-slice (DESIGN section 4 #10)
+  rank        is_fullrank_matA vs exact elimination over Qc on the rational pre-image of A (guard = rank == number of columns,
+              the code after fix fullrank-guard-column-rank of C09); full column rank <=> testers informationally complete
+              (decided independently on the tester sets)
+  witness     the witnesses of the *_refuted theorems (about the code before the fixes) replayed on the real code, which must
+              now return the schedules' own distributions / Fisher matrices
 """
 import itertools, random, warnings
 from fractions import Fraction
@@ -19,7 +23,7 @@ from common import flow
 
 LEVEL = "proof"
 TOL = 1e-10
-ERR_SCHEDULE, ERR_WIDTH, ERR_RESHAPE, ERR_INDEX = 1, 2, 3, 4
+ERR_SCHEDULE, ERR_WIDTH, ERR_INDEX = 1, 2, 4
 
 
 # ------------------------------------------------------------------ systems, exact tester operators
@@ -533,7 +537,7 @@ def malformed_cfgs(ctx, n):
 
 
 def sub_coeffs(ctx):
-    cases = cfg_stream(ctx, 60, 500) + malformed_cfgs(ctx, ctx.n(8, 40))
+    cases = cfg_stream(ctx, 60, 1200) + malformed_cfgs(ctx, ctx.n(8, 80))
     ctx.sample("coeffs", cases[0]); ctx.sample("coeffs", cases[-3])
     ctx.run_cases("coeffs", chk_coeffs, cases)
 
@@ -654,7 +658,7 @@ def _forward_one(ctx, cfg, setup, A, b, counts, site, attr, eps, tag, v):
 
 
 def sub_forward(ctx):
-    cases = cfg_stream(ctx, 48, 400)
+    cases = cfg_stream(ctx, 48, 900)
     for c in cases:
         heavy = c["sys"] != "1q" and c["typ"] in ("qpt", "qmpt")
         c["n_basis"] = 3 if heavy else (6 if ctx.quick else 40)
@@ -664,6 +668,22 @@ def sub_forward(ctx):
 
 
 # ------------------------------------------------------------------ sub-check: calc_prob_dist(s), Fisher slicing
+def impl_prob_dists(qt, obj):
+    """('ok', [row arrays], container) / ('err', message): quara's calc_prob_dists; the container is a 2-D ndarray (equal outcome
+    counts) or a list of 1-D arrays (mixed counts, after fix calc-prob-dists-mixed-outcome-counts) -- compared row by row"""
+    try:
+        with warnings.catch_warnings():
+            warnings.simplefilter("ignore")
+            r = qt.calc_prob_dists(obj)
+    except ValueError as e:
+        return ("err", str(e), None)
+    return ("ok", [np.asarray(x, dtype=float).ravel() for x in r], "ndarray" if isinstance(r, np.ndarray) else type(r).__name__)
+
+
+def rows_match(rows, expected, tol=1e-9):
+    return len(rows) == len(expected) and all(len(r) == len(e) and np.abs(np.asarray(r) - np.asarray(e)).max(initial=0) < tol for r, e in zip(rows, expected))
+
+
 def chk_prob_dists(ctx, cfg):
     setup = Setup(cfg)
     if setup.qt is None:
@@ -683,31 +703,26 @@ def chk_prob_dists(ctx, cfg):
     vals = m.call(op, zs, qs)
     rows = int(vals[0])
     born = split(fl(vals[1 + rows:]), counts)
-    expected = [trunc_norm(r, eps) for r in born]
-    # --- as coded
-    op, zs, qs = setup.request(2, var=v.tolist())
-    st, val = m.try_call(op, zs, qs)
-    try:
-        with warnings.catch_warnings():
-            warnings.simplefilter("ignore")
-            impl = ("ok", np.asarray(qt.calc_prob_dists(obj), dtype=float))
-    except ValueError as e:
-        impl = ("err", str(e))
-    ctx.count("prob_dists", key=repr(cfg), nontrivial=True, label="%s-%s-%s" % (typ, "mixed" if mixed else "equal", "reshape-" + ("error" if st == "err" else "ok")))
-    site = "StandardQTomography.calc_prob_dists"
-    if (st == "err") != (impl[0] == "err"):
-        ctx.violation("prob_dists", site, "model-mismatch-error", "reshape outcome: implementation %s, model %s %s" % (impl[0], st, val if st == "err" else ""), case)
+    if any(abs(p - eps) < 1e-9 or p < 1e-9 for r in born for p in r):
+        ctx.count("prob_dists", key=repr(cfg), nontrivial=False, label="next-to-truncation-threshold")
         return
-    if st == "ok":
-        S_, w = int(val[0]), int(val[1])
-        mod = fl(val[2:]).reshape(S_, w)
-        if impl[1].shape != mod.shape or np.abs(impl[1] - mod).max(initial=0) > 1e-9:
-            ctx.violation("prob_dists", site, "model-mismatch-value", "calc_prob_dists differs from the model of the code as written", case)
-            return
-    # --- the property: row j must be the Born distribution of schedule j
-    ok = impl[0] == "ok" and len(impl[1]) == len(expected) and all(len(r) == len(e) and np.abs(np.array(r) - e).max(initial=0) < 1e-9 for r, e in zip(impl[1], expected))
-    if not ok:
-        what = ("raises ValueError (%s)" % impl[1][:80]) if impl[0] == "err" else "returns rows %s, the schedules' Born distributions are %s" % (np.round(impl[1], 6).tolist(), [np.round(e, 6).tolist() for e in expected])
+    expected = [trunc_norm(r, eps) for r in born]
+    # --- the model of calc_prob_dists (np.split at the cumulative num_outcomes, truncate_and_normalize per schedule)
+    op, zs, qs = setup.request(2, var=v.tolist())
+    val = m.call(op, zs, qs)
+    k = int(val[0])
+    lens = [int(x) for x in val[1:1 + k]]
+    mod = split(fl(val[1 + k:]), lens)
+    site = "StandardQTomography.calc_prob_dists"
+    # executed instance of C08_calc_prob_dists_rows: the model's rows are the schedules' (truncated, normalised) Born vectors
+    if lens != counts or not rows_match(mod, expected, 1e-12):
+        ctx.violation("prob_dists", "Model/C08_Forward.v", "theorem-instance", "model: calc_prob_dists rows (lengths %s) are not the schedules' Born distributions (lengths %s)" % (lens, counts), case)
+        return
+    impl = impl_prob_dists(qt, obj)
+    ctx.count("prob_dists", key=repr(cfg), nontrivial=True, label="%s-%s-%s" % (typ, "mixed" if mixed else "equal", impl[2] if impl[0] == "ok" else "raises"))
+    # --- the property: row j must be the Born distribution of schedule j (== the model, by the theorem instance above)
+    if impl[0] != "ok" or not rows_match(impl[1], expected):
+        what = ("raises ValueError (%s)" % impl[1][:80]) if impl[0] == "err" else "returns rows %s, the schedules' Born distributions are %s" % ([np.round(r, 6).tolist() for r in impl[1]], [np.round(e, 6).tolist() for e in expected])
         sig = "mixed-outcome-counts-reshape" if mixed else "value"
         ctx.violation("prob_dists", site, sig, "outcome counts %s: calc_prob_dists %s" % (counts, what), case)
     else:
@@ -715,48 +730,68 @@ def chk_prob_dists(ctx, cfg):
             with warnings.catch_warnings():
                 warnings.simplefilter("ignore")
                 pj = np.asarray(qt.calc_prob_dist(obj, j), dtype=float)
-            if np.abs(pj - expected[j]).max(initial=0) > 1e-9:
+            if pj.shape != expected[j].shape or np.abs(pj - expected[j]).max(initial=0) > 1e-9:
                 ctx.violation("prob_dists", "StandardQTomography.calc_prob_dist", "value", "calc_prob_dist(obj, %d) differs from the Born distribution" % j, case)
+                break
     # --- Fisher slicing
     if not setup.para or min(min(r) for r in born) < 1e-6:
         return                       # calc_fisher_matrix always uses to_var(); needs strictly positive probabilities
     A = np.asarray(qt.calc_matA(), dtype=float)
     S_ = len(counts)
-    j = int(nprng.integers(S_))
-    off = sum(counts[:j])
-    want = sum(np.outer(A[off + x], A[off + x]) / born[j][x] for x in range(counts[j]))
-    opm, zsm, qsm = setup.request(4, var=v.tolist(), j=j)
-    sl = fl(m.call(opm, zsm, qsm))
-    size = int(len(A) / S_)
-    coded_valid = len(sl) > 0 and sl.min() > -1e-8 and abs(sl.sum() - 1) <= 1e-8
-    try:
-        got = ("ok", np.asarray(qt.calc_fisher_matrix(j, v), dtype=float))
-    except ValueError as e:
-        got = ("err", str(e))
-    ctx.count("prob_dists", key=(repr(cfg), "fisher", j), nontrivial=True, label="fisher-%s" % ("mixed" if mixed else "equal"))
     fsite = "StandardQTomography.calc_fisher_matrix"
-    if coded_valid != (got[0] == "ok"):
-        ctx.violation("prob_dists", fsite, "model-mismatch-error", "Fisher slice rows [%d,%d): model says the slice is %sa distribution, implementation %s" % (size * j, size * (j + 1), "" if coded_valid else "not ", got[0]), case)
-        return
-    if got[0] == "ok" and min(sl) >= 1e-7:
-        coded = sum(np.outer(A[size * j + x], A[size * j + x]) / sl[x] for x in range(size))
-        if np.abs(coded - got[1]).max() > 1e-6 * (1 + np.abs(coded).max()):
-            ctx.violation("prob_dists", fsite, "model-mismatch-value", "Fisher matrix differs from the model of the code as written", case)
+    for j in sorted(nprng.choice(S_, size=min(S_, 3), replace=False).tolist()):
+        off = sum(counts[:j])
+        want = sum(np.outer(A[off + x], A[off + x]) / born[j][x] for x in range(counts[j]))
+        opm, zsm, qsm = setup.request(4, var=v.tolist(), j=j)
+        sl = fl(m.call(opm, zsm, qsm))
+        ctx.count("prob_dists", key=(repr(cfg), "fisher", j), nontrivial=True, label="fisher-%s" % ("mixed" if mixed else "equal"))
+        # executed instance of C08_fisher_slice: the slice the model takes for schedule j is schedule j's Born distribution
+        if len(sl) != counts[j] or np.abs(sl - np.asarray(born[j])).max(initial=0) > 1e-12:
+            ctx.violation("prob_dists", "Model/C08_Forward.v", "theorem-instance", "model: the Fisher slice of schedule %d is not that schedule's Born distribution" % j, dict(case, j=j))
             return
-    if got[0] != "ok" or got[1].shape != want.shape or np.abs(got[1] - want).max() > 1e-6 * (1 + np.abs(want).max()):
-        sig = "mixed-outcome-counts-slice" if mixed else "value"
-        ctx.violation("prob_dists", fsite, sig, "outcome counts %s, schedule %d: Fisher matrix %s; rows used [%d,%d), rows of the schedule [%d,%d)" % (
-            counts, j, "raises ValueError" if got[0] == "err" else "differs from sum_x grad grad^T / p", size * j, size * (j + 1), off, off + counts[j]), case)
+        try:
+            got = ("ok", np.asarray(qt.calc_fisher_matrix(j, v), dtype=float))
+        except ValueError as e:
+            got = ("err", str(e))
+        if got[0] != "ok" or got[1].shape != want.shape or np.abs(got[1] - want).max() > 1e-6 * (1 + np.abs(want).max()):
+            size = int(len(A) / S_)
+            sig = "mixed-outcome-counts-slice" if mixed else "value"
+            ctx.violation("prob_dists", fsite, sig, "outcome counts %s, schedule %d: Fisher matrix %s; rows of the schedule [%d,%d)%s" % (
+                counts, j, ("raises ValueError (%s)" % got[1][:60]) if got[0] == "err" else "differs from sum_x grad p_x grad p_x^T / p_x", off, off + counts[j],
+                (" (an even split would use rows [%d,%d))" % (size * j, size * (j + 1))) if mixed else ""), dict(case, j=j))
+            return
+
+
+def cfg_counts(cfg):
+    """outcome counts of the scheduled circuits, from the configuration alone"""
+    ms = cfg.get("povm_ms", [])
+    sch = default_schedules(cfg) if cfg["sched"] == "all" else cfg["sched"]
+    t = cfg["typ"]
+    if t == "povmt":
+        return [cfg["m"]] * len(sch)
+    return [ms[s[0]] if t == "qst" else ms[s[1]] * (cfg["m"] if t == "qmpt" else 1) for s in sch]
 
 
 def sub_prob_dists(ctx):
     rng = ctx.rng
     cases = []
-    n = ctx.n(40, 300)
+    n = ctx.n(40, 900)
     for i in range(n):
         typ = TYPES[i % 4]
         sys = "1q" if (ctx.quick or rng.random() < 0.6 or typ in ("qpt", "qmpt")) else rng.choice(["3", "2q"])
-        cases.append(gen_cfg(rng, typ, sys, mixed=(i % 3 == 0) if typ != "povmt" else None))
+        want_mixed = None if typ == "povmt" else (i % 3 != 0)          # two thirds mixed outcome counts, one third equal
+        cfg = gen_cfg(rng, typ, sys, mixed=want_mixed)
+        if want_mixed and len(set(cfg_counts(cfg))) == 1:
+            # the schedule list happened to use testers of one size only: append one schedule with a tester of another size
+            # (repetitions and arbitrary orders are valid schedule lists)
+            dflt = default_schedules(cfg)
+            cur = cfg_counts(cfg)[0]
+            sch = [list(s) for s in (dflt if cfg["sched"] == "all" else cfg["sched"])]
+            other = [s for s in dflt if cfg_counts(dict(cfg, sched=[s]))[0] != cur]
+            if other:
+                sch.insert(rng.randrange(len(sch) + 1), list(rng.choice(other)))
+                cfg["sched"] = sch; cfg["kind"] = cfg.get("kind", "") + "+mixed"
+        cases.append(cfg)
     ctx.sample("prob_dists", cases[0])
     ctx.run_cases("prob_dists", chk_prob_dists, cases)
 
@@ -782,7 +817,7 @@ def chk_rank(ctx, cfg):
     nv, rows, w = int(val[0]), int(val[1]), int(val[2])
     AR = [list(val[3 + i * w:3 + (i + 1) * w]) for i in range(rows)]
     op, zs, qs = setup.request(3, rational=True)
-    rk, full_min, full_col = [int(x) for x in m.call(op, zs, qs)]
+    rk, full_guard, full_col, full_min = [int(x) for x in m.call(op, zs, qs)]     # full_guard: is_fullrank_matA (rank == columns)
     A = np.asarray(qt.calc_matA(), dtype=float)
     ARf = np.array([[float(x) for x in r] for r in AR]).reshape(rows, w)
     # column scaling tie: A[:, c] = A_R[:, c] * const_c
@@ -804,8 +839,11 @@ def chk_rank(ctx, cfg):
     if not gap_ok:
         return        # numerically ambiguous: counted as trivial, nothing asserted
     impl = bool(qt.is_fullrank_matA())
-    if impl != bool(full_min):
-        ctx.violation("rank", "StandardQTomography.is_fullrank_matA", "value", "is_fullrank_matA() = %s; exact rank %d of a %dx%d matrix" % (impl, rk, rows, w), cfg)
+    if impl != bool(full_guard):
+        # after fix fullrank-guard-column-rank (owner C09) the guard is "rank == number of columns"; the old guard
+        # (rank == min(shape)) differs exactly on wide matrices with independent rows
+        sig = "wide-matA-passes-guard" if (rows < w and impl and full_min) else "value"
+        ctx.violation("rank", "StandardQTomography.is_fullrank_matA", sig, "is_fullrank_matA() = %s; exact rank %d of a %dx%d matrix (full column rank: %s)" % (impl, rk, rows, w, bool(full_col)), cfg)
     # the property: full column rank <=> informationally complete, IC decided on the tester sets alone
     ic = ic_testers(ctx, setup)
     if ic is not None and ic != bool(full_col):
@@ -836,7 +874,7 @@ def ic_testers(ctx, setup):
 def sub_rank(ctx):
     rng = ctx.rng
     cases = []
-    n = ctx.n(36, 240)
+    n = ctx.n(36, 720)
     for i in range(n):
         typ = TYPES[i % 4]
         sys = "1q" if (typ in ("qpt", "qmpt") or rng.random() < 0.7) else "3"
@@ -877,7 +915,9 @@ WITNESSES = [
 
 
 def chk_witness(ctx, case):
-    """the Coq witnesses of C08_calc_prob_dists_mixed_refuted (Props/C08.v) replayed on quara"""
+    """the Coq witnesses of C08_calc_prob_dists_reshape_mixed_refuted / C08_fisher_evenslice_mixed_refuted (Props/C08.v: statements about
+    the code BEFORE the fixes) replayed on quara: the repaired code must return the schedules' own distributions
+    (C08_example_calc_prob_dists_mixed is the same computation in the model)"""
     from quara.objects.state import State
     from quara.objects.povm import Povm
     from quara.protocol.qtomography.standard.standard_qst import StandardQst
@@ -885,22 +925,34 @@ def chk_witness(ctx, case):
     c = S["c"]
     r2 = np.sqrt(2.0)
     povms = [Povm(c, [np.array(e, dtype=float) * r2 for e in p]) for p in case["povms"]]        # vec = sqrt2 * (a0, a)
-    st = State(c, np.array([1.0, 0.3, 0.2, 0.5]) / r2, on_para_eq_constraint=False)
-    qt = StandardQst(povms, on_para_eq_constraint=False)
     counts = [len(p) for p in case["povms"]]
     truth = [[2 * (e[0] * 0.5 + 0.5 * (e[1] * 0.3 + e[2] * 0.2 + e[3] * 0.5)) for e in p] for p in case["povms"]]
-    circ = qt.generate_prob_dists_sequence(st)
-    ctx.count("witness", key=case["name"], nontrivial=True, label=case["name"])
-    if any(np.abs(np.array(a) - np.array(b)).max() > 1e-12 for a, b in zip(circ, truth)):
-        ctx.violation("witness", "Experiment.calc_prob_dist", "witness-circuit", "composed circuit %s differs from the hand-computed Born distributions %s" % (circ, truth), case)
-    try:
-        got = ("ok", np.asarray(qt.calc_prob_dists(st), dtype=float))
-    except ValueError as e:
-        got = ("err", str(e))
-    good = got[0] == "ok" and len(got[1]) == 2 and all(len(r) == len(t) and np.abs(np.array(r) - np.array(t)).max() < 1e-9 for r, t in zip(got[1], truth))
-    if not good:
-        ctx.violation("witness", "StandardQTomography.calc_prob_dists", "mixed-outcome-counts-reshape",
-                      "outcome counts %s: calc_prob_dists %s; the schedules' distributions are %s" % (counts, ("raises ValueError: " + got[1][:70]) if got[0] == "err" else "returns " + str(np.round(got[1], 6).tolist()), truth), case)
+    for para in (False, True):
+        st = State(c, np.array([1.0, 0.3, 0.2, 0.5]) / r2, on_para_eq_constraint=para)
+        qt = StandardQst(povms, on_para_eq_constraint=para)
+        circ = qt.generate_prob_dists_sequence(st)
+        ctx.count("witness", key=(case["name"], para), nontrivial=True, label=case["name"])
+        if any(np.abs(np.array(a) - np.array(b)).max() > 1e-12 for a, b in zip(circ, truth)):
+            ctx.violation("witness", "Experiment.calc_prob_dist", "witness-circuit", "composed circuit %s differs from the hand-computed Born distributions %s" % (circ, truth), case)
+        got = impl_prob_dists(qt, st)
+        if got[0] != "ok" or not rows_match(got[1], truth):
+            ctx.violation("witness", "StandardQTomography.calc_prob_dists", "mixed-outcome-counts-reshape",
+                          "outcome counts %s: calc_prob_dists %s; the schedules' distributions are %s" % (counts, ("raises ValueError: " + got[1][:70]) if got[0] == "err" else "returns " + str([np.round(r, 6).tolist() for r in got[1]]), truth), case)
+        if not para:
+            continue
+        A = np.asarray(qt.calc_matA(), dtype=float)
+        for j in range(len(counts)):
+            off = sum(counts[:j])
+            want = sum(np.outer(A[off + x], A[off + x]) / truth[j][x] for x in range(counts[j]))
+            try:
+                f = ("ok", np.asarray(qt.calc_fisher_matrix(j, st), dtype=float))
+            except ValueError as e:
+                f = ("err", str(e))
+            ctx.count("witness", key=(case["name"], "fisher", j), nontrivial=True, label=case["name"] + "-fisher")
+            if f[0] != "ok" or f[1].shape != want.shape or np.abs(f[1] - want).max() > 1e-9:
+                ctx.violation("witness", "StandardQTomography.calc_fisher_matrix", "mixed-outcome-counts-slice",
+                              "outcome counts %s, schedule %d: Fisher matrix %s; rows of the schedule [%d,%d)" % (counts, j, ("raises ValueError: " + f[1][:70]) if f[0] == "err" else "differs from sum_x grad p_x grad p_x^T / p_x", off, off + counts[j]), case)
+                break
 
 
 def sub_witness(ctx):
@@ -942,7 +994,7 @@ def chk_ensemble(ctx, case):
 
 def sub_ensemble(ctx):
     rng = ctx.rng
-    cases = [{"sys": rng.choice(["1q", "1q", "3"] if ctx.quick else ["1q", "3", "2q"]), "m": rng.choice([2, 3, 4]), "mp": rng.choice([2, 3]), "seed": rng.getrandbits(30)} for _ in range(ctx.n(6, 40))]
+    cases = [{"sys": rng.choice(["1q", "1q", "3"] if ctx.quick else ["1q", "3", "2q"]), "m": rng.choice([2, 3, 4]), "mp": rng.choice([2, 3]), "seed": rng.getrandbits(30)} for _ in range(ctx.n(6, 120))]
     ctx.sample("ensemble", cases[0])
     ctx.run_cases("ensemble", chk_ensemble, cases)
 
